@@ -35,6 +35,16 @@ pub struct Region {
     /// which reachability witnesses this instance carries (bit i = `COVER_NAMES[i]`); each
     /// satisfiable witness costs one more SAT call, so an instance names only the ones it is for
     pub covers: u16,
+    /// 255: the number of symbolic bytes is chosen by the solver (0..=N); otherwise exactly this
+    /// many. A concrete length lets CBMC's symbolic execution decide the dispatch on a concrete
+    /// first byte and all loop bounds, which makes an instance 5-20x cheaper; the lengths 0..=N are
+    /// then covered by N+1 instances.
+    pub fixed_len: u8,
+    /// 0xFFFF: depth and name lengths of the open-name stack are chosen by the solver; otherwise
+    /// concrete: depth = bits 0-1, length of name i = bits 2+2i..4+2i (contents stay symbolic).
+    /// Heap buffers of symbolic length make CBMC's array post-processing explode (24 GB for depth<=2),
+    /// with a concrete shape the same step costs seconds.
+    pub shape: u16,
 }
 
 pub const COVER_NAMES: [&str; 12] = [
@@ -63,6 +73,8 @@ impl Region {
             cfg_or: 0,
             ascii: false,
             covers: 0,
+            fixed_len: 255,
+            shape: 0xFFFF,
         }
     }
 }
@@ -90,14 +102,16 @@ pub fn check_step<const N: usize, const P: usize, const D: usize, const L: usize
     mask: u32,
 ) -> Outcome {
     let mut r = Raw::new(raw);
-    let len = r.u8() as usize;
+    let len_sym = r.u8() as usize;
+    let len = if region.fixed_len == 255 { len_sym } else { region.fixed_len as usize };
     let mut state = r.u8();
     let cfg_bits = (r.u8() & region.cfg_and & 0x7f) | region.cfg_or;
     let offset = r.u16() as u64;
     let errdelta = r.u8() as u64;
-    let depth = r.u8() as usize;
+    let mut depth = r.u8() as usize;
     let mut name_len = [0usize; D];
-    let mut names = [[0u8; L]; D];
+    // flat (row stride L): CBMC mis-resolves slices of nested arrays `[[u8; L]; D]` (spurious counterexample seen)
+    let mut names = [0u8; 8];
     let mut i = 0;
     while i < D {
         name_len[i] = r.u8() as usize;
@@ -105,10 +119,23 @@ pub fn check_step<const N: usize, const P: usize, const D: usize, const L: usize
     }
     i = 0;
     while i < D {
-        names[i] = r.arr();
+        let row: [u8; L] = r.arr();
+        let mut k = 0;
+        while k < L {
+            names[i * L + k] = row[k];
+            k += 1;
+        }
         i += 1;
     }
     let sym: [u8; N] = r.arr();
+    if region.shape != 0xFFFF {
+        depth = (region.shape & 3) as usize;
+        i = 0;
+        while i < D {
+            name_len[i] = ((region.shape >> (2 + 2 * i)) & 3) as usize;
+            i += 1;
+        }
+    }
 
     // ---- input validity and representation invariant ------------------------------------------
     require!(len <= N);
@@ -122,13 +149,34 @@ pub fn check_step<const N: usize, const P: usize, const D: usize, const L: usize
         require!(name_len[i] <= L);
         i += 1;
     }
+    // names on the stack come from start tags: no whitespace, no unquoted `>`, not starting like other markup
+    i = 0;
+    while i < D {
+        let mut k = 0;
+        while k < L {
+            if i < depth && k < name_len[i] {
+                let c = names[i * L + k];
+                require!(!is_ws(c) && c != b'>' && c != b'"' && c != b'\'');
+                require!(!region.ascii || c < 0x80);
+                require!(k > 0 || (c != b'/' && c != b'!' && c != b'?'));
+            }
+            k += 1;
+        }
+        i += 1;
+    }
     let plen = region.prefix.len();
     if plen == 0 && N > 0 {
         match region.first {
             0 => {}
             1 => require!(len >= 1 && sym[0] != b'!' && sym[0] != b'/' && sym[0] != b'?'),
-            c => require!(len >= 1 && sym[0] == c),
+            _ => require!(len >= 1),
         }
+    }
+    // an exact first byte is written, not assumed: the dispatch on it is then decided during
+    // symbolic execution
+    let mut sym = sym;
+    if plen == 0 && N > 0 && region.first > 1 {
+        sym[0] = region.first;
     }
     if region.ascii {
         i = 0;
@@ -176,7 +224,7 @@ pub fn check_step<const N: usize, const P: usize, const D: usize, const L: usize
             let mut k = 0;
             while k < L {
                 if k < name_len[i] {
-                    opened_buffer.push(names[i][k]);
+                    opened_buffer.push(names[i * L + k]);
                 }
                 k += 1;
             }
@@ -187,7 +235,7 @@ pub fn check_step<const N: usize, const P: usize, const D: usize, const L: usize
 
     // ---- reference ---------------------------------------------------------------------------
     let top = Top {
-        name: if depth > 0 { Some(&names[depth - 1][..name_len[depth - 1]]) } else { None },
+        name: if depth > 0 { Some(&names[(depth - 1) * L..(depth - 1) * L + name_len[depth - 1]]) } else { None },
     };
     let want = ref_step(state, &cfg, rest, top);
 
@@ -234,84 +282,9 @@ pub fn check_step<const N: usize, const P: usize, const D: usize, const L: usize
 
     // ---- C01 / C16: same outcome as the reference ----------------------------------------------
     if mask & (C01 | C16 | C04 | C16_FINDING_ONLY) != 0 {
-        match (&res, &want.out) {
-            (Ok(e), Out::Event { kind, start, len: clen, name_len: nl }) => {
-                let k = kind_of(e);
-                ensure!(k == *kind, "C01: event kind is the one the grammar assigns");
-                let content: &[u8] = e;
-                ensure!(content.len() == *clen, "C01: event content has exactly the construct's length");
-                forall_idx!(j < *clen => {
-                    ensure!(content[j] == rest[*start + j], "C01: event content is exactly the raw bytes of the construct");
-                });
-                match e {
-                    Event::Start(s) | Event::Empty(s) => {
-                        ensure!(s.name().as_ref().len() == *nl, "C01: tag name ends at the first whitespace");
-                    }
-                    Event::PI(p) => {
-                        ensure!(p.target().len() == *nl, "C01: PI target ends at the first whitespace");
-                    }
-                    _ => {}
-                }
-            }
-            (Ok(Event::End(e)), Out::EndOfExpanded) => {
-                let nm: &[u8] = e;
-                let want_nm = top.name.unwrap();
-                ensure!(nm.len() == want_nm.len(), "C16: expanded empty element ends with the same name (length)");
-                forall_idx!(j < want_nm.len() => {
-                    ensure!(nm[j] == want_nm[j], "C16: expanded empty element ends with the same name");
-                });
-            }
-            (Err(Error::Syntax(got)), Out::Syntax(w)) => {
-                let ok = match w {
-                    Syn::Any => true,
-                    Syn::InvalidBang => *got == SyntaxError::InvalidBangMarkup,
-                    Syn::UnclosedPI => *got == SyntaxError::UnclosedPIOrXmlDecl,
-                    Syn::UnclosedComment => *got == SyntaxError::UnclosedComment,
-                    Syn::UnclosedDoctype => *got == SyntaxError::UnclosedDoctype,
-                    Syn::UnclosedCData => *got == SyntaxError::UnclosedCData,
-                    Syn::UnclosedTag => *got == SyntaxError::UnclosedTag,
-                };
-                ensure!(ok, "C01: input stopping inside a construct gives that construct's syntax error");
-            }
-            (Err(Error::IllFormed(got)), Out::IllFormed { err, start, len: flen }) => {
-                match (got, err) {
-                    (IllFormedError::MissingDoctypeName, Ill::MissingDoctypeName) => {}
-                    (IllFormedError::DoubleHyphenInComment, Ill::DoubleHyphen) => {}
-                    (IllFormedError::MismatchedEndTag { expected, found }, Ill::Mismatched) => {
-                        if mask & C04 != 0 {
-                            // names are reported as text: compared when they are ASCII
-                            let exp = top.name.unwrap();
-                            if region.ascii || ascii_slice(exp) && ascii_slice(&rest[*start..*start + *flen]) {
-                                ensure!(expected.len() == exp.len(), "C04: mismatch error names the open element (length)");
-                                forall_idx!(j < exp.len() => {
-                                    ensure!(expected.as_bytes()[j] == exp[j], "C04: mismatch error names the open element");
-                                });
-                                ensure!(found.len() == *flen, "C04: mismatch error names the found end tag (length)");
-                                forall_idx!(j < *flen => {
-                                    ensure!(found.as_bytes()[j] == rest[*start + j], "C04: mismatch error names the found end tag");
-                                });
-                            }
-                        }
-                    }
-                    (IllFormedError::UnmatchedEndTag(found), Ill::Unmatched) => {
-                        if mask & C04 != 0 && (region.ascii || ascii_slice(&rest[*start..*start + *flen])) {
-                            ensure!(found.len() == *flen, "C04: unmatched error names the end tag (length)");
-                            forall_idx!(j < *flen => {
-                                ensure!(found.as_bytes()[j] == rest[*start + j], "C04: unmatched error names the end tag");
-                            });
-                        }
-                    }
-                    _ => {
-                        ensure!(false, "C04: ill-formedness error is the documented one");
-                    }
-                }
-            }
-            _ => {
-                if mask & C16_FINDING_ONLY != 0 {
-                    ensure!(false, "C16: whitespace-only text trimmed to nothing is not emitted");
-                }
-                ensure!(false, "C01: outcome class (event / syntax error / ill-formed error) is the one the grammar assigns");
-            }
+        match compare_outcome(&res, &want, rest, top, mask, region.ascii) {
+            Outcome::Pass => {}
+            o => return o,
         }
         // successor state and consumption (not after a fatal error: nothing can follow it)
         match want.out {
@@ -321,7 +294,7 @@ pub fn check_step<const N: usize, const P: usize, const D: usize, const L: usize
             _ => {
                 ensure!(state_after == want.next_state, "C01: next construct is looked for in the right mode");
                 ensure!(
-                    offset_after - offset == (want.consumed - want.bom) as u64,
+                    offset_after - offset == want.consumed as u64,
                     "C01: exactly the construct's bytes are consumed"
                 );
             }
@@ -364,7 +337,7 @@ pub fn check_step<const N: usize, const P: usize, const D: usize, const L: usize
                         ensure!(starts_after[d] == acc, "C04: outer open elements keep their place");
                         let nl = name_len[d];
                         forall_idx!(j < nl => {
-                            ensure!(buf_after[acc + j] == names[d][j], "C04: outer open elements keep their names");
+                            ensure!(buf_after[acc + j] == names[d * L + j], "C04: outer open elements keep their names");
                         });
                         acc += nl;
                     }
@@ -383,7 +356,7 @@ pub fn check_step<const N: usize, const P: usize, const D: usize, const L: usize
             // span of this step in `rest` coordinates; `lead` = 1 if the span starts with the `<`
             // that was consumed by the previous step
             let lead: usize = if state == ST_MARKUP { 1 } else { 0 };
-            let consumed = (offset_after - offset) as usize + want.bom;
+            let consumed = (offset_after - offset) as usize;
             let trail: usize = if state_after == ST_MARKUP { 1 } else { 0 };
             // bytes of rest that belong to this event's span
             let span_end = consumed - trail;
@@ -490,6 +463,97 @@ pub fn check_step<const N: usize, const P: usize, const D: usize, const L: usize
     Outcome::Pass
 }
 
+/// The outcome of a real step / event constructor against the reference's outcome.
+pub fn compare_outcome(
+    res: &Result<Event, Error>,
+    want: &Step,
+    rest: &[u8],
+    top: Top,
+    mask: u32,
+    ascii: bool,
+) -> Outcome {
+    match (res, &want.out) {
+        (Ok(e), Out::Event { kind, start, len: clen, name_len: nl }) => {
+            let k = kind_of(e);
+            ensure!(k == *kind, "C01: event kind is the one the grammar assigns");
+            let content: &[u8] = e;
+            ensure!(content.len() == *clen, "C01: event content has exactly the construct's length");
+            forall_idx!(j < *clen => {
+                ensure!(content[j] == rest[*start + j], "C01: event content is exactly the raw bytes of the construct");
+            });
+            match e {
+                Event::Start(s) | Event::Empty(s) => {
+                    ensure!(s.name().as_ref().len() == *nl, "C01: tag name ends at the first whitespace");
+                }
+                Event::PI(p) => {
+                    ensure!(p.target().len() == *nl, "C01: PI target ends at the first whitespace");
+                }
+                _ => {}
+            }
+        }
+        (Ok(Event::End(e)), Out::EndOfExpanded) => {
+            let nm: &[u8] = e;
+            let want_nm = top.name.unwrap();
+            ensure!(nm.len() == want_nm.len(), "C16: expanded empty element ends with the same name (length)");
+            forall_idx!(j < want_nm.len() => {
+                ensure!(nm[j] == want_nm[j], "C16: expanded empty element ends with the same name");
+            });
+        }
+        (Err(Error::Syntax(got)), Out::Syntax(w)) => {
+            let ok = match w {
+                Syn::Any => true,
+                Syn::InvalidBang => *got == SyntaxError::InvalidBangMarkup,
+                Syn::UnclosedPI => *got == SyntaxError::UnclosedPIOrXmlDecl,
+                Syn::UnclosedComment => *got == SyntaxError::UnclosedComment,
+                Syn::UnclosedDoctype => *got == SyntaxError::UnclosedDoctype,
+                Syn::UnclosedCData => *got == SyntaxError::UnclosedCData,
+                Syn::UnclosedTag => *got == SyntaxError::UnclosedTag,
+            };
+            ensure!(ok, "C01: input stopping inside a construct gives that construct's syntax error");
+        }
+        (Err(Error::IllFormed(got)), Out::IllFormed { err, start, len: flen }) => {
+            match (got, err) {
+                (IllFormedError::MissingDoctypeName, Ill::MissingDoctypeName) => {}
+                (IllFormedError::DoubleHyphenInComment, Ill::DoubleHyphen) => {}
+                (IllFormedError::MismatchedEndTag { expected, found }, Ill::Mismatched) => {
+                    if mask & C04 != 0 {
+                        // names are reported as text: compared when they are ASCII
+                        let exp = top.name.unwrap();
+                        if ascii || ascii_slice(exp) && ascii_slice(&rest[*start..*start + *flen]) {
+                            ensure!(expected.len() == exp.len(), "C04: mismatch error names the open element (length)");
+                            forall_idx!(j < exp.len() => {
+                                ensure!(expected.as_bytes()[j] == exp[j], "C04: mismatch error names the open element");
+                            });
+                            ensure!(found.len() == *flen, "C04: mismatch error names the found end tag (length)");
+                            forall_idx!(j < *flen => {
+                                ensure!(found.as_bytes()[j] == rest[*start + j], "C04: mismatch error names the found end tag");
+                            });
+                        }
+                    }
+                }
+                (IllFormedError::UnmatchedEndTag(found), Ill::Unmatched) => {
+                    if mask & C04 != 0 && (ascii || ascii_slice(&rest[*start..*start + *flen])) {
+                        ensure!(found.len() == *flen, "C04: unmatched error names the end tag (length)");
+                        forall_idx!(j < *flen => {
+                            ensure!(found.as_bytes()[j] == rest[*start + j], "C04: unmatched error names the end tag");
+                        });
+                    }
+                }
+                _ => {
+                    ensure!(false, "C04: ill-formedness error is the documented one");
+                }
+            }
+        }
+        _ => {
+            if mask & C16_FINDING_ONLY != 0 {
+                ensure!(false, "C16: whitespace-only text trimmed to nothing is not emitted");
+            }
+            ensure!(false, "C01: outcome class (event / syntax error / ill-formed error) is the one the grammar assigns");
+        }
+    }
+    Outcome::Pass
+}
+
 fn ascii_slice(b: &[u8]) -> bool {
     let mut i = 0;
     while i < b.len() {
@@ -499,4 +563,129 @@ fn ascii_slice(b: &[u8]) -> bool {
         i += 1;
     }
     true
+}
+
+/// Kernel: the event constructors of the parser state (`ReaderState::emit_*`, through hooks) on the
+/// bytes a correct scanner hands over, against the reference classification of `bytes ++ ">"`.
+/// `sel`: 0 emit_bang(CData) 1 emit_bang(Comment) 2 emit_bang(DocType) 3 emit_question_mark 4 emit_end 5 emit_start
+/// raw: [len, cfg, gap, depth, name_len, name[2], bytes[N]]; P = N + 1
+pub fn check_emit<const N: usize, const P: usize>(raw: &[u8], sel: u8, mask: u32) -> Outcome {
+    let mut r = Raw::new(raw);
+    let len = r.u8() as usize;
+    let cfg_bits = r.u8() & 0x7f;
+    let gap = r.u8() as u64;
+    let depth = r.u8() as usize;
+    let nlen = r.u8() as usize;
+    let name: [u8; 2] = r.arr();
+    let mut bytes: [u8; N] = r.arr();
+    require!(len <= N && depth <= 1 && nlen <= 2);
+    // the dispatcher guarantees the first byte
+    match sel {
+        0 | 1 | 2 => {
+            require!(len >= 2);
+            bytes[0] = b'!';
+            bytes[1] = if sel == 0 { b'[' } else if sel == 1 { b'-' } else { bytes[1] };
+            require!(sel != 2 || bytes[1] == b'D' || bytes[1] == b'd');
+        }
+        3 => {
+            require!(len >= 1);
+            bytes[0] = b'?';
+        }
+        4 => {
+            require!(len >= 1);
+            bytes[0] = b'/';
+        }
+        _ => {
+            require!(len == 0 || (bytes[0] != b'!' && bytes[0] != b'?' && bytes[0] != b'/'));
+        }
+    }
+    let mut i = 0;
+    while i < 2 {
+        require!(i >= nlen || !(is_ws(name[i]) || name[i] == b'>' || name[i] == b'"' || name[i] == b'\''));
+        i += 1;
+    }
+    require!(nlen == 0 || (name[0] != b'!' && name[0] != b'?' && name[0] != b'/'));
+    let mut input = [0u8; P];
+    i = 0;
+    while i < N {
+        input[i] = bytes[i];
+        i += 1;
+    }
+    // the `>` that the scanner found directly after the bytes
+    require!(len < P);
+    input[len] = b'>';
+    let rest: &[u8] = &input[..len + 1];
+    let buf: &[u8] = &input[..len];
+    let cfg = Cfg::from_bits(cfg_bits);
+    let top = Top { name: if depth > 0 { Some(&name[..nlen]) } else { None } };
+    let want = ref_step(ST_MARKUP, &cfg, rest, top);
+    // scanner contract (decided by K1-K3): the construct ends exactly at that `>`
+    match want.out {
+        Out::Syntax(_) => {}
+        _ => require!(want.consumed == len + 1),
+    }
+    // a comment/CDATA scanner hands over bytes ending with `--` / `]]`; a PI scanner bytes ending with `?`
+    match sel {
+        0 => require!(len >= 3 && buf[len - 1] == b']' && buf[len - 2] == b']'),
+        1 => require!(len >= 5 && buf[len - 1] == b'-' && buf[len - 2] == b'-'),
+        2 => require!(find_doctype_end(rest, 0, 0).0 == Some(len)),
+        3 => require!(find_seq(rest, 0, b"?>") == Some(len - 1) || len == 1),
+        _ => require!(find_tag_end(rest, 0) == Some(len)),
+    }
+
+    let offset = 1 + len as u64 + 1 + gap; // after the `>`
+    let mut ob: Vec<u8> = Vec::with_capacity(N + 4);
+    let mut os: Vec<usize> = Vec::with_capacity(3);
+    if depth == 1 {
+        os.push(0);
+        i = 0;
+        while i < 2 {
+            if i < nlen {
+                ob.push(name[i]);
+            }
+            i += 1;
+        }
+    }
+    let mut reader = Reader::verif_from_state(&b""[..], ST_TEXT, offset, 0, cfg.to_real(), ob, os);
+    let res: Result<Event, Error> = match sel {
+        0 | 1 | 2 => reader.verif_emit_bang(sel, buf),
+        3 => reader.verif_emit_question_mark(buf),
+        4 => reader.verif_emit_end(buf),
+        _ => Ok(reader.verif_emit_start(buf)),
+    };
+    match compare_outcome(&res, &want, rest, top, mask, false) {
+        Outcome::Pass => {}
+        o => return o,
+    }
+    let (state_after, _, err_after, buf_after, starts_after) = reader.verif_state();
+    if mask & C03 != 0 {
+        ensure!(err_after <= offset, "C03: error position is not after the current position");
+    }
+    match want.stack {
+        StackOp::None => ensure!(starts_after.len() == depth, "C04: stack depth unchanged"),
+        StackOp::Pop => ensure!(starts_after.len() + 1 == depth && buf_after.len() == 0, "C04: end tag pops exactly one open element"),
+        StackOp::Push { start, len: nl } => {
+            ensure!(starts_after.len() == depth + 1, "C04: start tag pushes one open element");
+            let base = if depth == 1 { nlen } else { 0 };
+            ensure!(buf_after.len() == base + nl && starts_after[depth] == base, "C04: start tag records its name (length)");
+            forall_idx!(j < nl => {
+                ensure!(buf_after[base + j] == rest[start + j], "C04: start tag records its name");
+            });
+        }
+    }
+    match want.out {
+        Out::Event { kind: Kind::Start, .. } if want.next_state == ST_EMPTY => {
+            ensure!(state_after == ST_EMPTY, "C16: an expanded empty element is followed by its end");
+        }
+        _ => ensure!(state_after == ST_TEXT, "C01: event constructors leave the mode alone"),
+    }
+    witness!(matches!(res, Ok(Event::CData(_))), "CData");
+    witness!(matches!(res, Ok(Event::Comment(_))), "Comment");
+    witness!(matches!(res, Ok(Event::DocType(_))), "DocType");
+    witness!(matches!(res, Ok(Event::Decl(_))), "Decl");
+    witness!(matches!(res, Err(Error::IllFormed(IllFormedError::DoubleHyphenInComment))), "DoubleHyphen");
+    witness!(matches!(res, Err(Error::IllFormed(IllFormedError::MissingDoctypeName))), "MissingDoctypeName");
+    core::mem::forget(res);
+    core::mem::forget(reader);
+    Outcome::Pass
 }
